@@ -123,12 +123,17 @@ class Gen:
             self.tags.add('multi-byte')
         text = s.replace('"', '""')
         if len(s) >= 2 and self.rng.random() < 0.15:
-            # break the cstring over two lines at a place where neither neighbour is a spacing character
-            cut = self.rng.randint(1, len(s) - 1)
-            if s[cut - 1] not in ' \t' and s[cut] not in ' \t':
-                a, b = s[:cut].replace('"', '""'), s[cut:].replace('"', '""')
-                text = a + self.rng.choice(['', ' ', '  ', '\t']) + self.rng.choice(['\n', '\r\n']) + self.rng.choice(['', '    ', '\t']) + b
+            # break the cstring over several lines at places where neither neighbour is a spacing character
+            cuts = sorted(set(self.rng.randint(1, len(s) - 1) for _ in range(self.rng.choice([1, 1, 2, 3]))))
+            cuts = [c for c in cuts if s[c - 1] not in ' \t' and s[c] not in ' \t']
+            if cuts:
+                pieces = [s[i:j].replace('"', '""') for i, j in zip([0] + cuts, cuts + [len(s)])]
+                text = pieces[0]
+                for pc in pieces[1:]:
+                    text += self.rng.choice(['', ' ', '  ', '\t']) + self.rng.choice(['\n', '\r\n', '\n \n']) + self.rng.choice(['', '    ', '\t']) + pc
                 self.tags.add('multi-line')
+                if len(cuts) > 1:
+                    self.tags.add('multi-break')
         return st, '"%s"' % text, ('str', s)
 
     def g_bits(self, depth):
